@@ -76,6 +76,11 @@ def colset(c, node: VScalar):
     return c.eng.list_mem(c.field(node, "column_names"), c.st)
 
 
+def colset_old(c, node: VScalar):
+    """columns of a node in the ENTRY state (for nodes the target does not modify, e.g. the source handed to a constructor)"""
+    return c.eng.list_mem(c.old_field(node, "column_names"), c.st)
+
+
 def source(c, node: VScalar, i: int) -> VScalar:
     src = c.field(node, "sources")
     return VScalar(src.arr[i], NODE)
